@@ -72,3 +72,18 @@ package stdlib_contracts
 //@ func (*Cache[string, *github.com/nspcc-dev/neo-go/pkg/crypto/keys.PublicKey]).Get[string *github.com/nspcc-dev/neo-go/pkg/crypto/keys.PublicKey]
 //@ assumed
 //@ pure
+
+// lz4 block compression: the documented worst-case size of a compressed block (CompressBlock
+// reports 0 bytes, not an error, when dst is smaller than that and the data does not shrink)
+//@ package github.com/pierrec/lz4
+//@ spec bound(n int) int
+//@ func CompressBlockBound
+//@ assumed
+//@ pure
+//@ ensures result == bound(n) && result >= n
+
+// the JSON tokenizer advances its own state only
+//@ package encoding/json
+//@ func (*Decoder).Token
+//@ assumed
+//@ modifies *dec
